@@ -9,10 +9,12 @@
     unlocked_store_breaks_wf locked_store_is_setitem code_lock_is_reentrant
     deadlock_free_for_code each_load_correct wf_at_quiescence acquisitions_come_from_programs
     acquisitions_in_program_order lru_invariant_under_every_schedule
+    loader_invariant_under_every_schedule
 -/
 import Genshi.Lemmas.ConcLoad
 import Genshi.Lemmas.ConcSerial
 import Genshi.Lemmas.ConcLru
+import Genshi.Lemmas.ConcInv
 import Genshi.Lemmas.Lru
 import Genshi.Model.ConcLru
 import Genshi.Gen.Loader
@@ -123,6 +125,21 @@ theorem wf_at_quiescence (c : CCfg) (ls0 : LState) (clock : Nat) (hi : Inv ⟨c.
       (seqLoads c.cfg c.fs ls0 [] (exec c (G.init ls0 progs) sched).acqLog).1 := by rw [← h]
   rw [this]
   exact seqLoads_inv c.cfg c.fs clock ls0 [] _ hi
+
+/-- C15's history invariant in every reachable state, under every schedule, for programs with
+    nested loads too (this generalises `wf_at_quiescence`): the cache is a bounded LRU map of
+    distinct keys, every cached template whose freshness check is an mtime comparison has the
+    content its file had at that mtime, identities are fresh; and whenever the lock is free the
+    full invariant `Inv` of C15 holds, so C15's `reload_current_partial` etc. apply to the next
+    load, whichever thread performs it. -/
+theorem loader_invariant_under_every_schedule (c : CCfg) (ls0 : LState) (clock : Nat)
+    (hi : Inv ⟨c.fs, clock, ls0⟩) (progs : List (List CReq)) (sched : List Tid) :
+    InvL c.fs clock (exec c (G.init ls0 progs) sched).ls ∧
+    ((exec c (G.init ls0 progs) sched).owner = none →
+      Inv ⟨c.fs, clock, (exec c (G.init ls0 progs) sched).ls⟩) := by
+  have h := gcinv_exec (gcinv_init c clock ls0 (InvL.of_inv hi) progs) sched
+  refine ⟨h.inv, fun hfree => h.inv.to_inv ?_⟩
+  exact (ginv_exec (ginv_init ls0 hi.lock progs) sched).free hfree
 
 /-- Under every schedule, in every reachable state (not only at quiescence, and also for programs
     with nested loads): the cache is one that a sequence of `__getitem__`/`__setitem__` calls builds
